@@ -317,7 +317,8 @@ def run(ctx, rep):
     # ------------------------------------------------------------------ R4 removal only after completion
     comp = set(ts.model.complete)
     probes = [p for p in ts.probes.values() if call_name(p[1]) == "complete_order"]
-    rep.floor("R4", "complete_order call sites", len(probes), 5)
+    # three functions remove orders from the live list (simulation sweep, Betfair and Betdaq order stream)
+    rep.floor("R4", "functions with a complete_order call site", len({p[0].qual for p in probes}), 3)
     for f, call, var, states in probes:
         rep.check(states <= comp, "R4", key(f, call, "order is complete when it leaves the live list"), f, call,
                   "possible statuses of %s here: %s" % (var, sorted(states)))
